@@ -407,6 +407,9 @@ _PARSE_CONTEXTS = [ParseContext()]
 
 # Keeps track of singletons created via the singleton configurable.
 _SINGLETONS = {}
+# Guards lookup-or-construct of singletons. Reentrant, since a singleton's
+# constructor may itself use (other) singletons.
+_SINGLETONS_LOCK = threading.RLock()
 
 # Keeps track of file readers. These are functions that behave like Python's
 # `open` function (can be used a context manager) and will be used to load
@@ -2798,15 +2801,18 @@ def singleton(constructor):
 
 
 def singleton_value(key, constructor=None):
-  if key not in _SINGLETONS:
-    if not constructor:
-      err_str = "No singleton found for key '{}', and no constructor was given."
-      raise ValueError(err_str.format(key))
-    if not callable(constructor):
-      err_str = "The constructor for singleton '{}' is not callable."
-      raise ValueError(err_str.format(key))
-    _SINGLETONS[key] = constructor()
-  return _SINGLETONS[key]
+  # The lock makes lookup-or-construct atomic: without it, two threads using a
+  # singleton for the first time could both construct it.
+  with _SINGLETONS_LOCK:
+    if key not in _SINGLETONS:
+      if not constructor:
+        err_str = "No singleton found for key '{}', and no constructor was given."
+        raise ValueError(err_str.format(key))
+      if not callable(constructor):
+        err_str = "The constructor for singleton '{}' is not callable."
+        raise ValueError(err_str.format(key))
+      _SINGLETONS[key] = constructor()
+    return _SINGLETONS[key]
 
 
 def constant(name, value):
